@@ -132,6 +132,10 @@ def correspond(ctx, scale):
                 # per-call option: target codes for the cross-entropy loss (`indices=`); the codebook statistics must follow the same law
                 kwargs['indices'] = torch.randint(0, K, (b, n, heads) if heads > 1 else (b, n))
                 dist['with_target_indices'] = dist.get('with_target_indices', 0) + 1
+            if t > 0 and (t + ci) % 5 == 4:
+                # decay SCHEDULE: the public attribute is changed on the live codebook; the next step follows the decay the module has now
+                cb.decay = rng.choice([0.5, 0.25, 0.75, 0.0, 1.0, 0.9])
+                dist['live_decay_changes'] = dist.get('live_decay_changes', 0) + 1
             vq.train(mode != 'eval')
             if rng.random() < 0.3:
                 x = x.clone().requires_grad_(False)
@@ -167,6 +171,9 @@ def correspond(ctx, scale):
     bl_cases, bl_meta, n_bl = block_cases(ctx, rng, scale, dist, failures)
     evaluations += n_bl
     rv_cases, rv_meta = rv_cases + bl_cases, rv_meta + bl_meta
+    cc_cases, cc_meta, n_cc = cross_config_cases(ctx, rng, scale, dist, failures, TOL_E, TOL_S)
+    evaluations += n_cc
+    rv_cases, rv_meta = rv_cases + cc_cases, rv_meta + cc_meta
     bad, broken = core.run_cases(ctx, 'c03', HEADER, cases + rv_cases, per_file=40)
     allmeta = meta + rv_meta
     for name, out in broken:
@@ -252,6 +259,51 @@ def block_cases(ctx, rng, scale, dist, failures):
         meta.append(dict(kind=pl.get('kind', 'vq-block'), kw=kw, step=0, head=0, mode='train', mults=pl['mults'], masked=pl['masked']))
         del x, idx, flat_idx
     return cases, meta, n
+
+
+def cross_config_cases(ctx, rng, scale, dist, failures, TOL_E_, TOL_S_):
+    """hyper-parameters are constructor arguments, not state: a module built with threshold T' / decay d' that LOADS the state_dict of a module
+    built with other values keeps following its own T' and d' (pre-train without expiry, fine-tune with it).  The model's configuration is
+    taken from the constructor arguments of the loading module, not from attributes of the loaded one."""
+    import torch, types
+    from vector_quantize_pytorch import VectorQuantize
+    cases, meta = [], []
+    evaluations = 0
+    TOL_E, TOL_S = TOL_E_, TOL_S_
+    for ci in range((12 if not ctx.thorough else 80) * scale):
+        d, K = rng.choice([1, 2]), rng.choice([3, 5, 8])
+        cosine = ci % 3 == 2
+        thr_a, thr_b = [(0, 2), (2, 0), (1, 2.5), (2.5, 1), (0, 1), (2, 0.5)][ci % 6]
+        dec_a, dec_b = [(0.5, 0.75), (0.8, 0.25), (0.25, 0.5)][ci % 3]
+        kwa = dict(dim=d, codebook_size=K, use_cosine_sim=cosine, decay=dec_a, threshold_ema_dead_code=thr_a)
+        eps_b = [1e-5, 1e-3][ci % 2]
+        kwb = dict(kwa, decay=dec_b, threshold_ema_dead_code=thr_b, eps=eps_b)
+        try:
+            va, vb = VectorQuantize(**kwa), VectorQuantize(**kwb)
+            vqrec.set_codebook_grid(va, rng)
+            va.train()
+            for _ in range(rng.choice([0, 1, 3])):
+                va(vqrec.grid(rng, (2, 3, d)))
+            how = ['strict', 'assign', 'copy-buffers'][ci % 3]
+            if how == 'strict':
+                vb.load_state_dict(va.state_dict())
+            elif how == 'assign':
+                vb.load_state_dict({k: v.clone() for k, v in va.state_dict().items()}, assign=True)
+            else:
+                with torch.no_grad():
+                    for k_, v_ in va.state_dict().items():
+                        vb.state_dict()[k_].copy_(v_)
+            vb.train()
+            for t in range(2):
+                ret, recs = vqrec.record_call(vb, vqrec.grid(rng, (2, 3, d)))
+                evaluations += 1
+                shim = types.SimpleNamespace(decay=dec_b, eps=eps_b, threshold_ema_dead_code=thr_b, reset_cluster_size=thr_b, ema_update=True, manual_ema_update=False, kmeans_iters=10)
+                cases.append(update_term(recs[0], 0, shim, cosine, TOL_E, TOL_S))
+                meta.append(dict(kind='vq-cross-config-reload', kw=kwb, step=t, head=0, mode='train', reset=float(thr_b), loaded_from=kwa, how=how))
+                dist['cross_config_reload_steps'] = dist.get('cross_config_reload_steps', 0) + 1
+        except Exception as ex:
+            failures.append({'key': f'vq-cross-config-reload:exception:{type(ex).__name__}', 'what': f'VectorQuantize({kwb}) loading the state of VectorQuantize({kwa}) raised {ex!r}', 'case': dict(kwa=kwa, kwb=kwb)})
+    return cases, meta, evaluations
 
 
 def residual_cases(ctx, rng, scale, dist, failures):
